@@ -23,6 +23,7 @@ META = {
     "assumptions": [],
 }
 META["explanation"] += " " + '(PR-consumed) a value or expression text is taken as a number only when the scanner consumed all of it: the cursor form of StringToNumber is followed by a comparison of the cursor with the end, and the cursor-less overload is not used outside Digit.hpp.'
+META["explanation"] += " " + '(SB-climb) on every path from an application of an operator back to the head of the climbing loop of evaluate() the test previous_oper < next operator was passed on its true edge, in the direct and in the recursive branch alike. (SB-powsign) after the magnitude of a power is computed the result is negated only under base-negative AND exponent-odd (must-analysis over the boolean locals known true). (REAL-trunc) a Real operand of ^ is truncated to an integer only next to a test of whether it has a fractional part.'
 
 DOC_NAMES = {
     "exponent": ["Exponent"], "remainder": ["Remainder"], "multiplication": ["Multiplication"],
@@ -206,6 +207,15 @@ def run(ctx):
          "`%s` selects %s; two-character operators are %s" % (found[0] if found else None, sorted(found[1]) if found else None, sorted(two_char)),
          "Include/Template.hpp:%d" % pe.line)
     rules.append(r)
+
+    # ---------------- SB-climb
+    rules.append(rule_climb(ctx, m, ev))
+
+    # ---------------- SB-powsign
+    rules.append(rule_power_sign(ctx, m))
+
+    # ---------------- REAL-trunc
+    rules.append(rule_real_trunc(ctx, m))
 
     # ---------------- X-symbols
     r = Rule("X-symbols", "getOperation maps every operator symbol to the operator of that name", floor=14)
@@ -467,3 +477,229 @@ def run(ctx):
         r.broke("expected at least 3 cursor-form StringToNumber calls, found %d" % n_cursor)
     rules.append(r)
     return rules
+
+
+
+def rule_climb(ctx, m, ev):
+    """SB-climb: evaluate() is precedence climbing: a level entered with the operator that precedes its sub-expression
+    (previous_oper) may go on consuming operators only while they bind tighter than that one; otherwise it must return so that
+    its caller applies the pending operator first.  Both ways of applying an operator inside the loop -- directly, or after a
+    recursive call for a tighter right-hand side -- have to make that decision: on the CFG, every path from an application
+    (a call of evaluateExpression) back to the loop head passes the TRUE edge of a comparison of previous_oper with the operator
+    under the cursor.  (Without it 10 - 2 * 3 ^ 2 - 1 is computed as 10 - (2 * 9 - 1).)"""
+    from qlib import dataflow
+    r = Rule("SB-climb", "after every application the climbing loop continues only under `previous_oper < next operator`", floor=2)
+    prm = [p_ for p_ in ev.params if "QOperation" in p_["t"] and not p_.get("ptr") and not p_.get("ref")]
+    loops = astq.nodes_of(ev, ("WhileStmt", "DoStmt", "ForStmt"))
+    if len(prm) != 1 or not loops or not ev.cfg:
+        r.broke("evaluate: the operator parameter or the climbing loop was not found")
+        return r
+    pd = prm[0]["d"]
+    blocks = ev.blocks()
+    loop = loops[0]
+    region = set(ev.walk(loop))
+    heads = [b["id"] for b in ev.cfg["blocks"] if b.get("looptarget") == loop]
+    cond = ev.nodes[loop].get("cond", -1)
+    cond_blocks = set(b["id"] for b in ev.cfg["blocks"] if "cond" in b and cond is not None and cond >= 0 and ev.strip(b["cond"]) in (set(ev.walk(cond)) | {ev.strip(cond)}))
+    back = set(heads) | cond_blocks
+
+    def is_rank_test(c):
+        n = ev.nodes[ev.strip(c)]
+        if n["k"] != "BinaryOperator" or n["op"] not in ("<", ">"):
+            return None
+        l_, r_ = n["ch"]
+        ln, rn = ev.nodes[ev.strip_casts(l_)], ev.nodes[ev.strip_casts(r_)]
+        if n["op"] == "<" and ln.get("d") == pd and "Operation" in ev.text(r_):
+            return True
+        if n["op"] == ">" and rn.get("d") == pd and "Operation" in ev.text(l_):
+            return True
+        return None
+    apps = []
+    for b in ev.cfg["blocks"]:
+        for i, e in enumerate(b["el"]):
+            x = e.get("n")
+            if isinstance(x, int) and not e.get("k") and x in region and ev.nodes[x]["k"] in ("CallExpr", "CXXMemberCallExpr") and ev.call_simple_name(x) == "evaluateExpression":
+                apps.append((b, x))
+    if not apps:
+        r.broke("evaluate: no application (evaluateExpression) inside the climbing loop")
+        return r
+    for (b0, x) in apps:
+        # the application succeeded: follow the true edge of the condition it is the last atom of (or fall through)
+        succ = dataflow.successors(ev, b0)
+        starts = [s_ for (s_, k_, p_) in succ if k_ in ("true", "fall")]
+        seen = set()
+        work = [(s_, False) for s_ in starts]
+        bad = None
+        while work and bad is None:
+            bid, checked = work.pop()
+            if (bid, checked) in seen:
+                continue
+            seen.add((bid, checked))
+            if bid in back:
+                if not checked:
+                    bad = bid
+                continue
+            for (s_, k_, p_) in dataflow.successors(ev, blocks[bid]):
+                c2 = checked
+                if k_ in ("true", "false") and p_ is not None and is_rank_test(p_):
+                    c2 = checked or (k_ == "true")
+                work.append((s_, c2))
+        ctx.note_fn(ev)
+        r.ob(ev.q, ev.text(x)[:60], bad is None, "every path from this application back to the loop head passes `%s < operator under the cursor`" % prm[0]["n"] if bad is None else
+             "after this application the loop goes on without comparing `%s` with the next operator: an operator that does not bind tighter than the one in front of the sub-expression is consumed by the inner level" % prm[0]["n"],
+             ev.loc(x))
+    return r
+
+
+
+def rule_power_sign(ctx, m):
+    """SB-powsign: a power of a negative base is negative exactly when the exponent is odd, whatever the sign of the exponent
+    ((-2)^-2 = 1/4, (-2)^-3 = -1/8).  In QExpression::operator^= the magnitude is computed first (PowerOf on the absolute
+    values); every statement after it that negates the result must therefore sit under BOTH "the base was negative" and "the
+    exponent is odd".  Must-analysis on the CFG: facts are the boolean locals known true (true edges of `flag`, of `a && b`
+    through the short-circuit edges); the parity flag is the local initialised from a test of the exponent's lowest bit."""
+    from qlib import dataflow
+    r = Rule("SB-powsign", "after the magnitude of a power is computed, the result is negated only under (base negative AND exponent odd)", floor=2)
+    fs = [f for f in m.functions if not f.inst and f.cfg and f.q == "Qentem::QExpression::operator^="]
+    if not fs:
+        r.broke("QExpression::operator^= not found")
+        return r
+    f = fs[0]
+    ctx.note_fn(f)
+    pw = astq.calls(f, "PowerOf")
+    if not pw:
+        r.broke("operator^=: the magnitude computation (PowerOf) was not found")
+        return r
+    # the parity flag: a bool local whose initialiser masks with 1
+    parity = set()
+    negflags = set()
+    for x in astq.nodes_of(f, "DeclStmt"):
+        for d in f.nodes[x]["decls"]:
+            if d.get("tk") == "bool" and "d" in d:
+                if d.get("init", -1) >= 0 and any(f.nodes[y]["k"] == "BinaryOperator" and f.nodes[y]["op"] == "&" for y in f.walk(d["init"])):
+                    parity.add(d["d"])
+    # "base negative" flags: bool locals assigned from a `< 0` test of this object's own value
+    for x in f.walk():
+        n = f.nodes[x]
+        if n["k"] == "BinaryOperator" and n["op"] == "=":
+            lh = f.nodes[f.strip(n["ch"][0])]
+            rt = f.text(n["ch"][1])
+            if lh["k"] == "DeclRefExpr" and lh.get("tk") == "bool" and "<" in rt and "right" not in rt:
+                negflags.add(lh["d"])
+    if not parity or not negflags:
+        r.broke("operator^=: the parity flag or the base-is-negative flag was not identified")
+        return r
+    blocks = f.blocks()
+    # must-facts: set of bool decls known true
+    fact = {}
+    start = None
+    for b in f.cfg["blocks"]:
+        if any(e.get("n") == pw[0] for e in b["el"]):
+            start = b["id"]
+    fact[start] = frozenset()
+    work = [start]
+    at = {}
+    it = 0
+    while work and it < 4000:
+        it += 1
+        bid = work.pop()
+        st = fact[bid]
+        seen_pw = bid != start
+        for e in blocks[bid]["el"]:
+            x = e.get("n")
+            if not isinstance(x, int) or e.get("k"):
+                continue
+            if x == pw[0]:
+                seen_pw = True
+            if seen_pw:
+                at[x] = st if x not in at else (at[x] & st)
+        for (s_, kind, payload) in dataflow.successors(f, blocks[bid]):
+            out = st
+            if kind in ("true", "false") and payload is not None:
+                c = f.strip(payload)
+                want = kind == "true"
+                while f.nodes[c]["k"] == "UnaryOperator" and f.nodes[c]["op"] == "!":
+                    c = f.strip(f.nodes[c]["ch"][0])
+                    want = not want
+                cn = f.nodes[c]
+                if cn["k"] == "DeclRefExpr" and cn.get("tk") == "bool" and want:
+                    out = st | {cn["d"]}
+            new_ = out if s_ not in fact else (fact[s_] & out)
+            if s_ not in fact or new_ != fact[s_]:
+                fact[s_] = new_
+                work.append(s_)
+    n_neg = 0
+    for x, st in sorted(at.items()):
+        n = f.nodes[x]
+        if n["k"] == "BinaryOperator" and n["op"] == "=":
+            rh = f.nodes[f.strip(n["ch"][1])]
+            if rh["k"] == "UnaryOperator" and rh["op"] == "-" and f.text(rh["ch"][0]).replace("(", "").replace(")", "") == f.text(n["ch"][0]).replace("(", "").replace(")", ""):
+                n_neg += 1
+                has_neg = bool(st & negflags)
+                has_par = bool(st & parity)
+                r.ob(f.q, f.text(x)[:60], has_neg and has_par, "negated under %s" % (
+                    "base negative and exponent odd" if has_neg and has_par else ("base negative only: an even negative exponent gives a negative result ((-2)^-2 = -0.25)" if has_neg else "neither flag")), f.loc(x))
+    if n_neg == 0:
+        r.broke("operator^=: no negation of the result after PowerOf")
+    return r
+
+
+
+def rule_real_trunc(ctx, m):
+    """REAL-trunc: operator^= computes on integers; a Real operand may be turned into one (SizeT64I(real)) only if the function
+    also asks whether that conversion loses anything -- a comparison of the operand with its own truncation that is used as a
+    condition -- because 2.5^2 computed on the truncated base is 4 and 2^2.5 on the truncated exponent is 4, both unrelated
+    to the value of the expression.  Structural necessary condition (existence of the integrality test per truncated operand);
+    what the code then does with a fractional operand (a real-valued power, or 'no value') is not decided here."""
+    r = Rule("REAL-trunc", "a Real operand of ^ is truncated to an integer only next to a test of whether it has a fractional part", floor=2)
+    fs = [f for f in m.functions if not f.inst and f.cfg and f.q == "Qentem::QExpression::operator^="]
+    if not fs:
+        r.broke("QExpression::operator^= not found")
+        return r
+    f = fs[0]
+    ctx.note_fn(f)
+
+    def is_trunc(x):
+        n = f.nodes[x]
+        if n["k"] in ("CXXFunctionalCastExpr", "CStyleCastExpr", "CXXStaticCastExpr") and "long long" in (n.get("t") or "").replace("SizeT64I", "long long") and n.get("ch"):
+            src = f.nodes[f.strip(n["ch"][0])]
+            if (src.get("t") or "").replace("const ", "").strip() == "double":
+                return f.text(n["ch"][0]).replace("(", "").replace(")", "").replace(" ", "")
+        return None
+    truncs = {}
+    for x in f.walk():
+        t = is_trunc(x)
+        if t:
+            truncs.setdefault(t, []).append(x)
+    if not truncs:
+        r.broke("operator^=: no conversion of a Real operand to an integer was found")
+        return r
+    par = f.parents()
+    for operand, sites in sorted(truncs.items()):
+        tested = None
+        for x in sites:
+            # the conversion is itself part of an integrality comparison: double(SizeT64I(v)) ==/!= v
+            up = par.get(x)
+            hops = 0
+            while up is not None and hops < 6:
+                hops += 1
+                un = f.nodes[up]
+                if un["k"] == "BinaryOperator" and un["op"] in ("==", "!="):
+                    sides = [f.text(c).replace("(", "").replace(")", "").replace(" ", "") for c in un["ch"]]
+                    if operand in sides:
+                        # used as a condition?
+                        top = up
+                        while par.get(top) is not None and f.nodes[par[top]]["k"] in ("ParenExpr", "ImplicitCastExpr", "BinaryOperator", "UnaryOperator") and \
+                                f.nodes[par[top]].get("op") in (None, "&&", "||", "!"):
+                            top = par[top]
+                        pk = f.nodes[par[top]]["k"] if par.get(top) is not None else None
+                        if pk in ("IfStmt", "WhileStmt", "ConditionalOperator", "DeclStmt", "BinaryOperator"):
+                            tested = up
+                    break
+                up = par.get(up)
+        consuming = [x for x in sites if x != tested and not (tested is not None and x in set(f.walk(tested)))]
+        r.ob(f.q, "SizeT64I(%s)" % operand, tested is not None,
+             "the function compares `%s` with its own truncation and branches on the answer" % operand if tested is not None else
+             "`%s` is truncated to an integer and nothing asks whether it had a fractional part: the power is computed on a different number (2.5^2 = 4, 2^2.5 = 4)" % operand,
+             f.loc(sites[0]))
+    return r
